@@ -94,6 +94,11 @@ func NewChainDataBase(home string) *ChainDatabase {
 				}
 			}
 		}
+		// rebuild the all-candidates index (it lives in memory only): updateTop re-ranks from it, so it must
+		// hold what it held before the restart, i.e. every persisted candidate, unregistered ones included
+		for _, val := range candidates {
+			db.LastConfirm.CandidateTrieDB.Set(val)
+		}
 		db.LastConfirm.Top.Rank(max_candidate_count, newCandidate)
 	}
 	return db
